@@ -21,6 +21,26 @@ def U(tier, quick, thorough=None):
     return quick if tier == 'quick' else (thorough if thorough is not None else quick * 10)
 
 
+def _linalg_leg(tier, oracles, units=24, probes=(), **over):
+    """Internal-seam fault enumeration (legs.leg_ifaults): the j-th linear solve of the interpolation system that dfols makes
+    inside one of its own LinAlgError handlers fails, for every j of a fault-free reference run; restarts mostly on, so that the
+    failure is followed by the soft / hard restart branches of the main loop that nothing else reaches."""
+    prof = dict(p_restarts=0.85, p_hard=0.3, p_growing=0.0, p_buggify=0.5, p_nanregion=0.0, maxfun_choices=[30, 45, 60], p_regression=0.4)
+    prof.update(over)
+    return dict(name='linalg-fault-enumeration', leg='ifaults', units=U(tier, units, units * 8), opts=dict(oracles=oracles, probes=probes,
+                ref_budget_cap=U(tier, 50, 80), profile=P(**prof)))
+
+
+def _target_leg(tier, oracles, units=40, probes=(), **over):
+    """Target enumeration (legs.leg_targets): 'objective is sufficiently small' exit at every record evaluation of a reference run,
+    alone and right after a bad value."""
+    prof = dict(p_restarts=0.7, p_growing=0.0, p_buggify=0.4, p_nanregion=0.0, p_reg=0.0, p_sets=0.0, p_noise=0.0, p_nsamples=0.0, p_has_noise_flag=0.3,
+                maxfun_choices=[30, 45, 60], p_regression=0.4, p_random_init=0.1, p_increase_npt=0.5)
+    prof.update(over)
+    return dict(name='target-enumeration', leg='targets', units=U(tier, units, units * 8), opts=dict(oracles=oracles, probes=probes,
+                ref_budget_cap=U(tier, 50, 80), profile=P(**prof)))
+
+
 def _c01(tier):
     return [
         dict(name='bounded-swarm', leg='swarm', units=U(tier, 1600), opts=dict(per_unit=8, oracles=['C01'], profile=P(
@@ -33,6 +53,7 @@ def _c01(tier):
             p_bounds=1.0, p_sets=1.0, p_sets_with_bounds=1.0, p_growing=0.0, p_restarts=0.2))),
         dict(name='bounded-growing', leg='swarm', units=U(tier, 100), opts=dict(per_unit=8, oracles=['C01'], salt='growing', profile=P(
             p_bounds=1.0, p_growing=1.0, maxfun_choices=BUDGETS_BIG))),
+        _linalg_leg(tier, ['C01'], units=16, p_bounds=1.0),
     ]
 
 
@@ -44,6 +65,8 @@ def _c02(tier):
             p_nsamples=0.6, p_noise=0.5, p_restarts=0.6, p_growing=0.0, maxfun_choices=BUDGETS_MIX, p_logging=0.9))),
         dict(name='swarm-faulted', leg='swarm', units=U(tier, 200), opts=dict(per_unit=8, oracles=['C02'], salt='faulted', profile=P(
             p_nsamples=0.5, p_restarts=0.6, p_growing=0.0, p_faults=1.0, allow_raise=False, maxfun_choices=BUDGETS_BIG))),
+        _linalg_leg(tier, ['C02'], p_nsamples=0.5, p_noise=0.4, p_logging=0.9),
+        _target_leg(tier, ['C02'], units=24, p_logging=0.9),
     ]
 
 
@@ -57,6 +80,8 @@ def _c03(tier):
             p_reg=1.0, p_bounds=0.5, p_growing=0.0, p_restarts=0.3, maxfun_choices=[1, 2, 'npt', 15, 25, 40]))),
         dict(name='faulted', leg='swarm', units=U(tier, 200), opts=dict(per_unit=8, oracles=['C03'], probes=('final',), salt='faulted', profile=P(
             p_restarts=0.6, p_growing=0.0, p_faults=1.0, allow_raise=False, maxfun_choices=BUDGETS_BIG))),
+        _linalg_leg(tier, ['C03'], probes=('final',), p_nsamples=0.4, p_noise=0.4),
+        _target_leg(tier, ['C03'], probes=('final',)),
     ]
 
 
@@ -74,6 +99,12 @@ def _c04(tier):
             deterministic=True, p_reg=1.0, p_bounds=0.5, p_restarts=0.3, p_growing=0.0))),
         dict(name='growing', leg='swarm', units=U(tier, 40), opts=dict(per_unit=8, oracles=['C04'], probes=('final',), salt='growing', profile=P(
             deterministic=True, p_growing=1.0, p_restarts=0.3, maxfun_choices=BUDGETS_BIG))),
+        _linalg_leg(tier, ['C04'], probes=('final',), deterministic=True),
+        # value fault at every k of a reference run, alone and followed by a budget cut 1 / 2 evaluations later, in worlds where
+        # 'objective sufficiently small' exits are frequent (seeded change C04d: a dropped point is not saved while the incumbent is NaN)
+        dict(name='fault-then-cut-enumeration', leg='faultpoints', units=U(tier, 40, 400), opts=dict(oracles=['C04'], probes=('final',), kinds=['nan', '+inf'], cut_after=(1, 2),
+             ref_budget_cap=U(tier, 40, 60), salt='faultcut', profile=P(deterministic=True, p_restarts=0.7, p_growing=0.0, p_buggify=0.8, p_nanregion=0.0, maxfun_choices=[25, 40, 60]))),
+        _target_leg(tier, ['C04'], probes=('final',), deterministic=True),
     ]
 
 
@@ -85,6 +116,8 @@ def _c10(tier):
             p_nsamples=0.4, p_noise=0.4, p_restarts=0.7, p_growing=0.0, maxfun_choices=BUDGETS_MIX, p_buggify=0.8))),
         dict(name='faulted', leg='swarm', units=U(tier, 250), opts=dict(per_unit=8, oracles=['C10'], salt='faulted', profile=P(
             p_restarts=0.6, p_growing=0.0, p_faults=1.0, allow_raise=False, maxfun_choices=BUDGETS_BIG))),
+        _linalg_leg(tier, ['C10'], p_nsamples=0.4, p_noise=0.4, p_buggify=0.8),
+        _target_leg(tier, ['C10']),
     ]
 
 
@@ -96,7 +129,44 @@ def _c11(tier):
         dict(name='swarm', leg='swarm', units=U(tier, 900), opts=dict(per_unit=8, oracles=['C11'], profile=P(
             p_noise=0.0, p_nsamples=0.3, p_restarts=0.6, p_growing=0.0, maxfun_choices=BUDGETS_BIG, p_nanregion=0.0, p_scaling=0.5,
             families=['lin', 'lin', 'lin', 'sinlin', 'cubic', 'trig', 'rosen']))),
+        _linalg_leg(tier, ['C11'], p_noise=0.0, p_nsamples=0.3, p_scaling=0.5, families=['lin', 'lin', 'lin', 'sinlin', 'cubic', 'trig', 'rosen']),
     ]
+
+
+def _long_march(scn):
+    """Scenario mutation for the C18 'long march' leg: an unconstrained, well-scaled linear world whose minimiser is 1e11..1e14 away
+    from x0, with rhobeg 1e6..1e9 - the only way for the trust-region radius to reach its 1e10 cap (seeded change C18d: the cap
+    re-bracketed so that it no longer binds once delta > 2.5e9; missed by every other leg, whose radii stay below ~1e7)."""
+    import hashlib
+    import numpy as np
+    o = scn['origin']
+    g = np.random.Generator(np.random.Philox(key=int(hashlib.sha256(('%s|%s|march' % (o['base_seed'], o['index'])).encode()).hexdigest()[:15], 16)))
+    n = len(scn['x0'])
+    A = np.asarray(scn['world']['A'], dtype=float)[:, :n]
+    m = A.shape[0]
+    # well-conditioned square-or-tall system so that steps are full-length and very successful
+    if m < n:
+        A = np.vstack([A, g.standard_normal((n - m, n))])
+        m = n
+    u, sv, vt = np.linalg.svd(A, full_matrices=False)
+    A = (u * np.linspace(1.0, 0.5, len(sv))).dot(vt)
+    dist = float(10.0 ** g.uniform(11.0, 14.0))
+    d = g.standard_normal(n)
+    d /= max(float(np.linalg.norm(d)), 1e-300)
+    xstar = np.asarray(scn['x0'], dtype=float) + dist * d
+    scn['world'] = {'family': 'lin', 'A': A.tolist(), 'b': A.dot(xstar).tolist()}
+    scn['bounds'] = None
+    scn['sets'] = []
+    scn['reg'] = None
+    a = scn['args']
+    a['scaling_within_bounds'] = False
+    a['rhobeg'] = float(10.0 ** g.uniform(6.0, 9.5))
+    a['rhoend'] = min(float(a['rhoend']), 1e-3 * a['rhobeg'])
+    if a.get('npt') is not None:
+        a['npt'] = max(n + 1, min(int(a['npt']), 2 * n + 1))
+    a['user_params'] = [kv for kv in a['user_params'] if not kv[0].startswith(('model.', 'slow.', 'tr_radius.', 'general.rounding'))]
+    S.fix_consistency(scn)
+    scn['features'] = S.features(scn)
 
 
 def _c18(tier):
@@ -109,6 +179,9 @@ def _c18(tier):
             p_diag=1.0, p_restarts=0.6, p_growing=0.0, p_faults=1.0, allow_raise=False, maxfun_choices=BUDGETS_BIG))),
         dict(name='growing', leg='swarm', units=U(tier, 100), opts=dict(per_unit=8, oracles=['C18'], salt='growing', profile=P(
             p_diag=1.0, p_growing=1.0, p_restarts=0.3, maxfun_choices=BUDGETS_BIG))),
+        _linalg_leg(tier, ['C18'], p_diag=1.0, p_nsamples=0.4, p_noise=0.4),
+        dict(name='long-march', leg='swarm', units=U(tier, 40), opts=dict(per_unit=8, oracles=['C18'], salt='march', mutate=_long_march, profile=P(
+            p_diag=1.0, p_bounds=0.0, p_nsamples=0.2, p_noise=0.2, p_restarts=0.4, p_growing=0.0, p_nanregion=0.0, p_int_dtype=0.0, maxfun_choices=[40, 60, 100, 150]))),
     ]
 
 
@@ -138,6 +211,7 @@ def _c07(tier):
             p_reg=1.0, p_bounds=0.5, p_restarts=0.4, p_growing=0.0, p_buggify=0.5))),
         dict(name='exit-routes-growing', leg='swarm', units=U(tier, 60), opts=dict(per_unit=8, oracles=['C07'], salt='growing', profile=P(
             p_growing=1.0, p_restarts=0.4, maxfun_choices=BUDGETS_BIG))),
+        _linalg_leg(tier, ['C07'], p_nsamples=0.3, p_diag=0.3),
     ]
 
 
